@@ -80,9 +80,9 @@ func c11Graphs() []c11Graph {
 		for _, cp := range contents {
 			un, u, cn, c := up[0], up[1], cp[0], cp[1]
 			gs = append(gs, c11Graph{"layout-slot:" + un + ":" + cn, map[string]string{
-				"p.vuego":          "---\nlayout: main\nt: T\n---\n" + c + "\n<p>body</p>\n",
+				"p.vuego":            "---\nlayout: main\nt: T\n---\n" + c + "\n<p>body</p>\n",
 				"layouts/main.vuego": u + "\n<main v-html=\"content\"></main>\n",
-				"box.vuego":        `<section><slot name="side" :k="1">fb</slot></section>`,
+				"box.vuego":          `<section><slot name="side" :k="1">fb</slot></section>`,
 			}, false})
 		}
 	}
@@ -199,7 +199,47 @@ func runC11(r *Run, replay *Case) {
 				}
 			}
 		case "builtin":
-			c11Builtins(r)
+			ins, data := c11BuiltinInputs()
+			for _, in := range ins {
+				if in["expr"] == replay.Input["expr"] && in["pos"] == replay.Input["pos"] {
+					r.Add(c11BuiltinEval(in, data))
+				}
+			}
+		case "guard":
+			from, to := 0, 0
+			if f, ok := replay.Input["from"].(float64); ok {
+				from = int(f)
+			}
+			if t, ok := replay.Input["to"].(float64); ok {
+				to = int(t)
+			}
+			switch replay.Input["which"] {
+			case "builtin":
+				ins, data := c11BuiltinInputs()
+				for i := from; i < to && i < len(ins); i++ {
+					r.Add(c11BuiltinEval(ins[i], data))
+				}
+			case "list":
+				// the parent hands the inputs over (they come from its random stream)
+				if items, ok := replay.Input["items"].([]any); ok {
+					for _, it := range items {
+						m := it.(map[string]any)
+						if m["stream"] == "bytes" {
+							r.Add(c11BytesEval([]byte(m["src"].(string)), m["fm"] == true))
+						}
+					}
+				}
+			case "typed":
+				k := 0
+				for _, tpl := range c11Templates {
+					for _, x := range c11Data() {
+						if k >= from && k < to {
+							r.Add(c11TypedEval(tpl, x))
+						}
+						k++
+					}
+				}
+			}
 		case "typed":
 			r.Add(c11TypedEval(replay.Input["tpl"].(string), fromVal(replay.Input["x"].(map[string]any))))
 		case "bytes":
@@ -233,10 +273,21 @@ func runC11(r *Run, replay *Case) {
 		}
 	}
 	r.Flush()
-	for _, tpl := range c11Templates {
-		for _, x := range c11Data() {
-			r.Add(c11TypedEval(tpl, x))
+	{
+		type tc struct {
+			tpl string
+			x   any
 		}
+		var tcs []tc
+		for _, tpl := range c11Templates {
+			for _, x := range c11Data() {
+				tcs = append(tcs, tc{tpl, x})
+			}
+		}
+		c11Guarded(r, "typed", len(tcs), func(i int) *Case { return c11TypedEval(tcs[i].tpl, tcs[i].x) },
+			func(i int) map[string]any {
+				return map[string]any{"stream": "typed", "tpl": tcs[i].tpl, "x": toVal(tcs[i].x)}
+			})
 	}
 	c11Builtins(r)
 	// front-matter shapes: files assembled from lines that are, begin with, or merely resemble the `---` delimiter (the loader scans for the
@@ -300,6 +351,11 @@ func runC11(r *Run, replay *Case) {
 		n = 150000
 	}
 	alphabet := []string{"<", ">", "/", "{{", "}}", "\"", "'", "=", " ", "v-for", "v-if", ":", "|", "(", ")", "[", "]", ".", "\n", "---", "template", "include", "\x00", "\xff", "é", "&", ";", "#", "a", "1", "in", ",", "slot", "{", "}"}
+	type bc struct {
+		src []byte
+		fm  bool
+	}
+	var bcs []bc
 	for i := 0; i < n; i++ {
 		s := []byte(c11Seeds[r.Rng.Intn(len(c11Seeds))])
 		for k := 1 + r.Rng.Intn(6); k > 0; k-- {
@@ -322,7 +378,11 @@ func runC11(r *Run, replay *Case) {
 				}
 			}
 		}
-		r.Add(c11BytesEval(s, i%7 == 0))
+		bcs = append(bcs, bc{s, i%7 == 0})
 	}
+	c11GuardedInputs(r, "bytes", len(bcs), func(i int) *Case { return c11BytesEval(bcs[i].src, bcs[i].fm) },
+		func(i int) map[string]any {
+			return map[string]any{"stream": "bytes", "src": string(bcs[i].src), "fm": bcs[i].fm, "tpl": string(bcs[i].src)}
+		})
 	_ = strings.TrimSpace
 }
